@@ -33,6 +33,8 @@ pub enum Role {
     Cleanup,
     Adder { payloads: usize },
     Snapshotter,
+    /// adds one version and stores a snapshot of that new version
+    AdderSnapshot,
 }
 
 #[derive(Clone, Debug)]
@@ -179,6 +181,16 @@ pub fn run_schedule(tag: &str, index: u64, sc: &Scenario, source: &mut dyn Decis
                 let snap = encode_snapshot(&state_of(&chain_payloads));
                 Box::pin(script_snapshot(h, evlog.clone(), c, initial_latest.unwrap_or(Uuid::nil()), snap))
             }
+            Role::AdderSnapshot => Box::pin(script_adder_snapshot(
+                h,
+                world.store.clone(),
+                evlog.clone(),
+                c,
+                initial_latest.unwrap_or(Uuid::nil()),
+                chain_payloads.clone(),
+                payload(((c as u128 + 1) << 16) + 0x99),
+                |seen| encode_snapshot(&state_of(seen)),
+            )),
         };
         futs.push(Some(f));
     }
@@ -482,6 +494,32 @@ pub fn run(ctx: &Ctx) -> Outcome {
             out
         });
     }
+    if want("cleanup-vs-adder-with-snapshot") {
+        // two cleanups racing with a client that adds a version and immediately stores its snapshot,
+        // on chains whose early versions are expired and covered by an older snapshot
+        let layouts = [
+            Layout { ages: vec![400, 390, 1], snapshots: vec![2], strays: vec![] },
+            Layout { ages: vec![400, 390, 380, 200], snapshots: vec![3], strays: vec![4] },
+            Layout { ages: vec![300, 1], snapshots: vec![1], strays: vec![] },
+        ];
+        let (lo, hi) = range(ctx.tier.pick(15_000, 600_000));
+        run_cases(&mut acc, "cleanup-vs-adder-with-snapshot", hi - lo, |i| {
+            let i = i + lo;
+            let mut rng = Rng::derive(seed, "c10-cas", i);
+            let sc = Scenario { layout: layouts[rng.below(layouts.len())].clone(), roles: vec![Role::Cleanup, Role::AdderSnapshot, Role::Cleanup], page_size: 2 + rng.below(2), draw: 255, stop_after_dels: None };
+            let mut out = CaseOut::new();
+            let mut src: Box<dyn DecisionSource> = match &replay_sched {
+                Some(s) => Box::new(ReplaySource { clients: s.clone() }),
+                None => Box::new(RandomSource { rng: Rng::derive(seed, "c10-cas-sched", i), delay_client: if rng.chance(2, 3) { Some(rng.below(3)) } else { None } }),
+            };
+            if let Some(r) = run_schedule("cleanup-vs-adder-with-snapshot", i, &sc, src.as_mut(), &mut out, json!({})) {
+                if r.cleanups > 0 {
+                    out.nontrivial = Some(r.trace_hash);
+                }
+            }
+            out
+        });
+    }
     if want("random") {
         let (lo, hi) = range(ctx.tier.pick(8000, 600_000));
         run_cases(&mut acc, "random", hi - lo, |i| {
@@ -495,9 +533,10 @@ pub fn run(ctx: &Ctx) -> Outcome {
             let n = 2 + rng.below(2);
             let mut roles = vec![Role::Cleanup];
             for _ in 1..n {
-                roles.push(match rng.below(4) {
+                roles.push(match rng.below(6) {
                     0 => Role::Cleanup,
                     1 => Role::Snapshotter,
+                    2 | 3 => Role::AdderSnapshot,
                     _ => Role::Adder { payloads: 1 + rng.below(2) },
                 });
             }
